@@ -23,7 +23,7 @@ from simcore.world import O, SimWorld, restore, snapshot, wipe
 
 class Engine(EngineBase):
     def budget(self, tier):
-        return (700, 50.0) if tier == "quick" else (30000, 900.0)
+        return (1700, 55.0) if tier == "quick" else (45000, 900.0)
 
     def rule(self):
         return ("seeded actor scripts (2-3 process-actors x 3-6 statements over 1-3 state points, same or "
